@@ -380,12 +380,15 @@ class Evaluator:
         self.parent_at = parent_at
         self._cache = {}
         self._stack = []
+        self._foreign = []
+        self._cutcount = [0]
         self.bound = dict(bound or {})   # name -> Rat   (comprehension / lambda / spec bindings)
         self._params = set(func.params)
         self._local_names = self._collect_locals()
         self._nested = {}
         self.alias_mode = False
         self._spec_mode = False
+        self._keep_seq = False      # inside a subscript: tuple(x) / list(x) select different numpy indexing modes
 
     # ------------------------------------------------------------ scope
     def _collect_locals(self):
@@ -447,11 +450,17 @@ class Evaluator:
                 raise AnalysisError(f"{self.func.qual}: name {name!r} needs a program point to be resolved")
             IN, _ = self.cfg.reaching(restrict)
             ds = IN.get(at.id, {}).get(name)
+            FIN, _ = self.cfg.reaching(restrict, forward_only=True)
+            fds = FIN.get(at.id, {}).get(name) or frozenset()
             terms = []
             param_reaches = name in self._params and self._param_reaches(name, at, restrict)
             if param_reaches:
                 terms.append((-1, self._sym(f"param:{name}", self.param_types.get(name))))
             for d in sorted(ds or ()):
+                if d not in fds:
+                    # arrives only by going round a loop: loop-carried value, kept abstract (canonical cut)
+                    terms.append((d, self.ctx.mk(("carried", d), ())))
+                    continue
                 terms.append((d, self._def_term(name, self.cfg.nodes[d], restrict)))
             if not terms:
                 if name in self._params:
@@ -512,12 +521,19 @@ class Evaluator:
         return self._sym(name)
 
     def _def_term(self, name, node, restrict):
-        key = ("def", name, node.id, restrict, self.alias_mode)
+        key = ("def", name, node.id, restrict, self.alias_mode, self._keep_seq)
         if key in self._cache:
             return self._cache[key]
         if key in self._stack:
-            return self.ctx.mk(("rec", ), ())
+            # loop-carried value: cut at the definition itself (canonical, independent of where evaluation started);
+            # every frame opened after that definition now depends on the cut and must not be cached
+            pos = self._stack.index(key)
+            for fr in self._foreign[pos + 1:]:
+                fr.add(key)
+            self._cutcount[0] += 1
+            return self.ctx.mk(("carried", node.id), ())
         self._stack.append(key)
+        self._foreign.append(set())
         try:
             res = None
             alld = [d for d in self.cfg.defs_of_node(node) if d[0] == name]
@@ -585,7 +601,11 @@ class Evaluator:
                 raise AnalysisError(f"{self.func.qual}: cannot resolve definition of {name}")
         finally:
             self._stack.pop()
-        self._cache[key] = res
+            foreign = self._foreign.pop()
+        if not foreign:
+            self._cache[key] = res
+        elif self._foreign:
+            self._foreign[-1] |= {k for k in foreign if k in self._stack}
         return res
 
     def _name_before(self, name, node, restrict):
@@ -656,12 +676,14 @@ class Evaluator:
 
     # ------------------------------------------------------------ expressions
     def _t(self, e, at, restrict):
-        k = (id(e), at.id if at is not None else None, restrict, self.alias_mode,
+        k = (id(e), at.id if at is not None else None, restrict, self.alias_mode, self._keep_seq,
              tuple(sorted((n, id(v)) for n, v in self.bound.items())))
         if k in self._cache:
             return self._cache[k]
+        c0 = self._cutcount[0]
         r = self._t2(e, at, restrict)
-        self._cache[k] = r
+        if self._cutcount[0] == c0 or not self._stack:
+            self._cache[k] = r
         return r
 
     def _t2(self, e, at, R):
@@ -747,6 +769,10 @@ class Evaluator:
             return self._index(e, at, R)
         if isinstance(e, ast.Await):
             return T(e.value)
+        if isinstance(e, ast.Yield):
+            return c.mk(("yield",), (T(e.value),) if e.value is not None else ())
+        if isinstance(e, ast.YieldFrom):
+            return c.mk(("yieldfrom",), (T(e.value),))
         if isinstance(e, ast.FormattedValue):
             return T(e.value)
         raise AnalysisError(f"{self.func.qual}: unsupported expression {type(e).__name__}")
@@ -777,13 +803,21 @@ class Evaluator:
         return c.mk((kind, len(gens)), [elt] + gens)
 
     def _index(self, s, at, R):
+        saved = self._keep_seq
+        self._keep_seq = True
+        try:
+            return self._index2(s, at, R)
+        finally:
+            self._keep_seq = saved
+
+    def _index2(self, s, at, R):
         c = self.ctx
         if isinstance(s, ast.Slice):
             none = c.mk(("const", None))
             parts = [self._t(x, at, R) if x is not None else none for x in (s.lower, s.upper, s.step)]
             return c.mk(("slice",), parts)
         if isinstance(s, ast.Tuple):
-            return c.mk(("tuple",), [self._index(x, at, R) for x in s.elts])
+            return c.mk(("tuple",), [self._index2(x, at, R) for x in s.elts])
         if isinstance(s, ast.Starred):
             return c.mk(("star",), (self._t(s.value, at, R),))
         return self._t(s, at, R)
@@ -930,6 +964,7 @@ class Evaluator:
         if key in self._stack:
             return self.ctx.mk(("prop", g.node.name), (base,))
         self._stack.append(key)
+        self._foreign.append(set())
         try:
             sub = Evaluator(self.repo, g, self.ctx, self_type=typ, expand=self.expand)
             sub.alias_mode = self.alias_mode
@@ -941,6 +976,7 @@ class Evaluator:
                 res = sub.term(rets[0].value, at=rets[0])
         finally:
             self._stack.pop()
+            self._foreign.pop()
         self._cache[key] = res
         return res
 
@@ -1027,7 +1063,8 @@ class Evaluator:
                 return self._bool(BOOL_FUNCS[fname], pos)
             if fname in NOT_FUNCS and len(pos) == 1:
                 return self._not(pos[0])
-            if fname in TRANSPARENT_FUNCS and len(pos) == 1 and not self.alias_mode:
+            if fname in TRANSPARENT_FUNCS and len(pos) == 1 and not self.alias_mode and \
+                    not (self._keep_seq and fname in ("tuple", "list")):
                 return pos[0]
             if fname == "np.power" and len(pos) == 2:
                 k = pos[1].const()
@@ -1044,7 +1081,7 @@ class Evaluator:
                 if h and h[0] == "str":
                     return self._attr(pos[0], h[1])
         if fname in TRANSPARENT_FUNCS and len(pos) == 1 and set(kwd) <= {"dtype"} and not star \
-                and not self.alias_mode:
+                and not self.alias_mode and not (self._keep_seq and fname in ("tuple", "list")):
             dt = kwd.get("dtype")
             if dt is None or self._is_float_dtype(dt):
                 return pos[0]
